@@ -73,9 +73,9 @@ func addchainBin() string {
 func runCLI(args []string, stdin []byte, timeout time.Duration) cliResult {
 	ctx, cancel := context.WithTimeout(context.Background(), timeout)
 	defer cancel()
-	// the child runs under an address-space limit (6 GiB): a runaway allocation in the code under test
+	// the child runs under an address-space limit (4 GiB): a runaway allocation in the code under test
 	// ends in an error of that process, not in memory pressure on the machine running the check
-	shArgs := append([]string{"-c", `ulimit -v 6291456 2>/dev/null; exec "$0" "$@"`, addchainBin()}, args...)
+	shArgs := append([]string{"-c", `ulimit -v 4194304 2>/dev/null; exec "$0" "$@"`, addchainBin()}, args...)
 	cmd := exec.CommandContext(ctx, "/bin/sh", shArgs...)
 	cmd.Stdin = bytes.NewReader(stdin)
 	var so, se bytes.Buffer
